@@ -45,6 +45,11 @@ Strategies (all JSON round-trippable, forward/backward maps implemented)
     LookBackRuleFactory              yields the expansion rule of the class with the last prefix letter removed
                                      (parent differs from the expanded class and is reachable only this way)
 
+    ExpansionAtomLast                ExpansionDropStat with the atom as *last* child (equivalence forms with child index > 0)
+    ExpansionNotSingle / RootVerified / PrependRuleFactory
+                                     building blocks of the packs "reverse" and "quotient", whose specifications
+                                     need Complement / Quotient rules (found by RuleDBForest only)
+
 Packs / starts / search
     PACKS: {name: () -> fresh StrategyPack};  pack_applicable(name, start) -> bool
     START_CLASSES(tier, seed=0) -> list[Av]
@@ -102,6 +107,10 @@ __all__ = [
     "ExpansionStrategy",
     "ExpansionDropStat",
     "ExpansionZeroMerge",
+    "ExpansionNotSingle",
+    "ExpansionAtomLast",
+    "RootVerified",
+    "PrependRuleFactory",
     "RemoveFrontOfPrefix",
     "SwapSymmetry",
     "RemoveRedundantPatterns",
@@ -130,6 +139,7 @@ __all__ = [
 STAT_LETTER = {"na": "a", "nb": "b", "na2": "a", "nb2": "b"}
 SWAP_STAT = {"na": "nb", "nb": "na", "na2": "nb2", "nb2": "na2"}
 BASE_OF = {"na2": "na", "nb2": "nb"}
+DUP_NAME = {"na": "na2", "na2": "na", "nb": "nb2", "nb2": "nb"}
 _SWAP = str.maketrans("ab", "ba")
 
 
@@ -181,13 +191,7 @@ class Av(CombinatorialClass[Word]):
         if not all(s in STAT_LETTER for s in stats) or len(set(stats)) != len(stats):
             raise ValueError("Unknown or repeated statistic.")
         self.stats: Tuple[str, ...] = stats
-        super().__init__()
-
-    def word_over_alphabet(self, word: str) -> bool:
-        return isinstance(word, str) and all(x in self.alphabet for x in word)
-
-    def key(self) -> tuple:
-        return (
+        self._key = (
             type(self).__name__,
             str(self.prefix),
             tuple(map(str, self.patterns)),
@@ -195,6 +199,14 @@ class Av(CombinatorialClass[Word]):
             self.just_prefix,
             self.stats,
         )
+        self._hash = zlib.crc32(repr(self._key).encode())
+        super().__init__()
+
+    def word_over_alphabet(self, word: str) -> bool:
+        return isinstance(word, str) and all(x in self.alphabet for x in word)
+
+    def key(self) -> tuple:
+        return self._key
 
     def derive(self, **changes) -> "Av":
         """A class of the same Python type with some fields replaced."""
@@ -296,10 +308,10 @@ class Av(CombinatorialClass[Word]):
     def __eq__(self, other: object) -> bool:
         if not isinstance(other, Av):
             return NotImplemented
-        return self.key() == other.key()
+        return self._key == other._key
 
     def __hash__(self) -> int:
-        return zlib.crc32(repr(self.key()).encode())
+        return self._hash
 
     def __repr__(self) -> str:
         return (
@@ -537,6 +549,44 @@ class ExpansionZeroMerge(ExpansionStrategy):
 
     def formal_step(self) -> str:
         return "Append a letter; vanishing statistics share one child statistic"
+
+
+class ExpansionAtomLast(ExpansionDropStat):
+    """The union of ExpansionDropStat with the children in the order prefix+letter ..., just the prefix, and with
+    the atom naming its statistics differently (na <-> na2, nb <-> nb2).  The first children can be empty while the
+    last one is not, and the parameter maps differ from child to child."""
+
+    def _raw_children(self, comb_class: Av) -> Tuple[Av, ...]:
+        children = super()._raw_children(comb_class)
+        return children[1:] + children[:1]
+
+    def _child_params(self, parent, child):
+        kept, mapping = super()._child_params(parent, child)
+        if child.just_prefix:
+            # statistic names are local to a class: the atom calls its statistics by their duplicate names
+            mapping = {s: DUP_NAME[s] for s in kept}
+            kept = tuple(DUP_NAME[s] for s in kept)
+        return kept, mapping
+
+    def forward_map(self, comb_class, obj, children=None):
+        res = super().forward_map(comb_class, obj, children)
+        return res[1:] + res[:1]
+
+    def formal_step(self) -> str:
+        return "Append a letter, or just the prefix; children forget statistics that vanish"
+
+
+class ExpansionNotSingle(ExpansionStrategy):
+    """The expansion, except that it does not apply to the classes whose prefix is a single letter (such a class
+    can then only be specified through the reverse of a rule in which it is a child)."""
+
+    def decomposition_function(self, comb_class: Av) -> Optional[Tuple[Av, ...]]:
+        if len(comb_class.prefix) == 1:
+            return None
+        return super().decomposition_function(comb_class)
+
+    def formal_step(self) -> str:
+        return "Append a letter (unless the prefix is a single letter)"
 
 
 class RemoveFrontOfPrefix(CartesianProductStrategy[Av, Word]):
@@ -909,6 +959,23 @@ class LongPrefixVerified(VerificationStrategy[Av, Word]):
         return f"LongPrefixVerified(k={self.k})"
 
 
+class RootVerified(LongPrefixVerified):
+    """Verifies the non-atom, non-empty classes with empty prefix (same machinery as LongPrefixVerified)."""
+
+    def verified(self, comb_class: Av) -> bool:
+        return (
+            not comb_class.just_prefix
+            and not comb_class.prefix
+            and not comb_class.is_empty()
+        )
+
+    def formal_step(self) -> str:
+        return "empty prefix"
+
+    def __repr__(self) -> str:
+        return "RootVerified()"
+
+
 class FiniteVerified(VerificationStrategy[Av, Word]):
     """Verifies finite non-atom classes; enumeration by listing the words.  No pack."""
 
@@ -1012,6 +1079,29 @@ class LookBackRuleFactory(_Factory):
         yield ExpansionStrategy()(comb_class.derive(prefix=comb_class.prefix[:-1]))
 
 
+class PrependRuleFactory(_Factory):
+    """For a class C with a one-letter prefix p and every other letter x: yields the expansion rule of the class
+    with prefix x (this makes the class with prefix xp known to the searcher as a child) and, when it is valid, the
+    prefix factorisation  class(xp) = {x} x C.  C is never a parent: it can only be specified by the quotient rule."""
+
+    def __call__(self, comb_class: Av):
+        if (
+            comb_class.just_prefix
+            or comb_class.is_empty()
+            or len(comb_class.prefix) != 1
+        ):
+            return
+        front = RemoveFrontOfPrefix()
+        for letter in comb_class.alphabet:
+            if letter == comb_class.prefix:
+                continue
+            yield ExpansionStrategy()(comb_class.derive(prefix=letter))
+            longer = comb_class.derive(prefix=letter + comb_class.prefix)
+            children = front.decomposition_function(longer)
+            if children is not None and children[1] == comb_class:
+                yield front(longer)
+
+
 # --------------------------------------------------------------------------------------------------------------
 # packs
 # --------------------------------------------------------------------------------------------------------------
@@ -1110,6 +1200,13 @@ PACKS: Dict[str, Callable[[], StrategyPack]] = {
         [[ExpansionDropStat()]],
         [StatAtomStrategy()],
     ),
+    "atomlast": lambda: _pack(
+        "atomlast",
+        [RemoveFrontOfPrefix()],
+        [],
+        [[ExpansionAtomLast()]],
+        [StatAtomStrategy()],
+    ),
     "zeromerge": lambda: _pack(
         "zeromerge",
         [RemoveFrontOfPrefix()],
@@ -1137,6 +1234,22 @@ PACKS: Dict[str, Callable[[], StrategyPack]] = {
         [],
         [[ExpansionStrategy()]],
         [StatAtomStrategy()],
+    ),
+    # a start class with a one-letter prefix is only reachable as a child: specified by a Complement rule (forest db)
+    "reverse": lambda: _pack(
+        "reverse",
+        [RemoveFrontOfPrefix()],
+        [],
+        [[ExpansionNotSingle()], [LookBackRuleFactory()]],
+        [StatAtomStrategy(), RootVerified()],
+    ),
+    # classes are only ever children of product rules: specified by Quotient rules (forest db)
+    "quotient": lambda: _pack(
+        "quotient",
+        [],
+        [],
+        [[PrependRuleFactory()]],
+        [StatAtomStrategy(), LongPrefixVerified(k=2)],
     ),
     "all": lambda: _pack(
         "all",
@@ -1233,16 +1346,22 @@ _QUICK = [
     ("b", ["a"], "ab", ("na", "nb")),
     ("", ["aab", "abb"], "ab", ("na", "na2")),
     ("", ["bab"], "ab", ("nb", "na")),
+    ("b", ["bb"], "ab", ()),
+    ("b", ["bab"], "ab", ("nb",)),
+    ("a", ["aa", "ab"], "ab", ("na", "nb")),
+    ("b", ["ba", "bbb"], "ab", ("na",)),
 ]
 
 
 def START_CLASSES(tier: str = "quick", seed: int = 0) -> List[Av]:
-    """quick: a fixed list of 40 classes (the last few as AvBytes); thorough: these plus a seeded sample of 260 of
+    """quick: a fixed list of 44 classes (four of them as AvBytes); thorough: these plus a seeded sample of 260 of
     the full family."""
     quick = [Av(p, patts, al, False, st) for p, patts, al, st in _QUICK]
-    quick = quick[:-4] + [
-        AvBytes(c.prefix, c.patterns, c.alphabet, False, c.stats) for c in quick[-4:]
-    ]
+    quick = (
+        quick[:36]
+        + [AvBytes(c.prefix, c.patterns, c.alphabet, False, c.stats) for c in quick[36:40]]
+        + quick[40:]
+    )
     if tier == "quick":
         return quick
     rng = _random.Random(seed)
@@ -1317,6 +1436,7 @@ def ALL_STRATEGIES() -> List:
         ExpansionStrategy(merge=True),
         ExpansionDropStat(),
         ExpansionZeroMerge(),
+        ExpansionAtomLast(),
         RemoveFrontOfPrefix(),
         RemoveFrontOfPrefix(merge=True),
         SwapSymmetry(),
